@@ -18,10 +18,11 @@ import PV.Proofs.AlgoTableScalar
     of the run no longer checks;
   * `add_scalar_eval`, `sub_scalar_eval`, `mul_scalar_eval`, `rmul_scalar_eval` — the other
     operations with a constant (hand-written mirrors of the bodies; tied by stream `poly-scalar`);
-  * `rsub_scalar_negated` / `rsub_scalar_cex` — `Polynomial.__rsub__` AS CODED returns
-    `self - other`: `c - p` has the negated value (known finding `poly-scalar-rsub-negated`);
-    `rsub_scalar_partial` says when it is right all the same, `rsub_scalar_eval` is the repaired
-    operation.
+  * `rsub_scalar_eval` — `Polynomial.__rsub__` as coded since repo fix 60a234e (`(-self) + other`)
+    is homomorphic: value(c - p) = c - value(p).  `rsub_scalar_negated` / `rsub_scalar_cex` /
+    `rsub_scalar_partial` are about `rsubScalarPy`, the code BEFORE that fix (`(-other) + self`
+    computed `p - c`: finding `poly-scalar-rsub-negated`, status fixed), kept as the regression
+    witness: if the old body ever returns, the driver disagrees and the oracle fires.
 -/
 
 namespace PV.Properties.C19
@@ -86,11 +87,12 @@ theorem rmul_scalar_eval (p : Poly) (k x : ℤ) : evalSpec (rscale p k) x = k * 
 example : addScalar [(0, 1), (2, 4)] (-1) = [(2, 4)] := by decide +kernel
 example : subScalar [(2, 4)] 3 = [(0, -3), (2, 4)] := by decide +kernel
 
-/-- the difference `c - p` done right: `(-p) + c` -/
+/-- **`c - p` is homomorphic**: `Polynomial.__rsub__` (`(-self) + other`, repo fix 60a234e) has the
+value `c - value(p)` at every point -/
 theorem rsub_scalar_eval (p : Poly) (k x : ℤ) : evalSpec (rsubScalar p k) x = k - evalSpec p x :=
   rsubScalar_eval p k x
 
-/-- **`Polynomial.__rsub__` as coded computes `p - c`**: `(-other) + self` -/
+/-- the body before repo fix 60a234e, `(-other) + self`, computed `p - c` -/
 theorem rsub_scalar_negated (p : Poly) (k x : ℤ) :
     evalSpec (rsubScalarPy p k) x = evalSpec p x - k :=
   rsubScalarPy_eval p k x
